@@ -39,12 +39,20 @@ def default_call(**kw):
     return call
 
 
-def run_estimates(el, feed, call, client=None, want_client=False):
-    """Run ModelClient.get_estimates on deep copies of everything.  Returns (results|None, exc|None[, client])."""
+OMIT = object()
+
+
+def run_estimates(el, feed, call, client=None, want_client=False, shared_model_parameters=None):
+    """Run ModelClient.get_estimates on deep copies of everything.  Returns (results|None, exc|None[, client]).
+
+    shared_model_parameters: pass the caller's OWN dict object as model_parameters (no copy) - callers reuse one
+    settings dict across runs - or harness.OMIT to leave the argument out (the signature's default)."""
     cm = client_mod()
     if client is None:
         client = cm.ModelClient()
     call = copy.deepcopy(call)
+    if shared_model_parameters is not None:
+        call["model_parameters"] = shared_model_parameters
     kwargs = dict(
         features=call["features"],
         aggregates=call["aggregates"],
@@ -68,7 +76,7 @@ def run_estimates(el, feed, call, client=None, want_client=False):
             geographic_unit_type=el.geo_type,
             raw_config=copy.deepcopy(el.config),
             preprocessed_data=el.pre.copy(deep=True),
-            model_parameters=call["model_parameters"],
+            **({} if call["model_parameters"] is OMIT else dict(model_parameters=call["model_parameters"])),
             **kwargs,
         )
     except Exception as e:  # noqa: BLE001 - the monitor decides what an exception means
